@@ -73,7 +73,16 @@ Fixpoint parse16_go (cur : pstate) (ls : list string) : option template16 :=
               match find_begin delims l with
               | Some (id, w, ib) => parse16_go (PB id w ib []) r
               | None => option_map (cons (match chop_nl l with
-                                          | Some txt => if no3 txt then Text txt else InitLine (parse_segs txt)   (* a tag outside blocks: the initial state *)
+                                          | Some txt =>
+                                              if no3 txt then Text txt
+                                              else match strip_suffix (ttt_tag true) txt, strip_suffix (ttt_tag false) txt with
+                                                   | Some pre, _ => TableLine pre true       (* the boost::sml table printers *)
+                                                   | None, Some pre => TableLine pre false
+                                                   | None, None =>
+                                                       let l := parse_segs txt in
+                                                       if forallb (closed_seg init_keys) l then InitLine l   (* the initial state *)
+                                                       else UserLine l                                      (* user tags *)
+                                                   end
                                           | None => Raw l
                                           end)) (parse16_go P0 r)
               end
